@@ -528,22 +528,27 @@ def r3g(ctx: Ctx) -> list[Ob]:
         if not shortcuts:
             out.append(ok("R3g", f.qualname, "shortcut", "no index-free shortcut in this builder", f.loc, nontrivial=False))
             continue
-        ranges: list[ast.AST] = []
+        ranges: list[tuple[ast.AST, ast.AST]] = []  # (bound, the other side of the comparison)
         for n in ast.walk(f.node):
             if isinstance(n, ast.Compare) and len(n.ops) == 1 and isinstance(n.ops[0], ast.Eq):
-                for side in (n.left, n.comparators[0]):
+                for side, other in ((n.left, n.comparators[0]), (n.comparators[0], n.left)):
                     e = side
                     if isinstance(e, ast.Call) and isinstance(e.func, ast.Name) and e.func.id == "list" and len(e.args) == 1:
                         e = e.args[0]
                     if isinstance(e, ast.Call) and isinstance(e.func, ast.Name) and e.func.id == "range" and len(e.args) == 1:
-                        ranges.append(e.args[0])
+                        ranges.append((e.args[0], other))
         if not ranges:
             out.append(unres("R3g", f.qualname, "shortcut", "index-free shortcuts without a `== list(range(n))` comparison (another formulation): no verdict", f.loc))
             continue
-        for i, bound in enumerate(ranges):
+        for i, (bound, other) in enumerate(ranges):
             names = {x.id for e in ld.expand(bound) for x in ast.walk(e) if isinstance(x, ast.Name)}
+            direct = {x.id for x in ast.walk(bound) if isinstance(x, ast.Name)}
+            request = {x.id for x in ast.walk(other) if isinstance(x, ast.Name) and isinstance(x.ctx, ast.Load)}
+            request -= {t.id for c in ast.walk(other) if isinstance(c, ast.comprehension) for t in ast.walk(c.target) if isinstance(t, ast.Name)}
             inst = f"full-range#{i}:{unparse(bound)[:40]}"
-            if "num_folds" in names:
+            if direct & request:
+                out.append(viol("R3g", f.qualname, inst, f"the index-free shortcut compares the cumulative index with a range computed from the index itself (`{unparse(bound)[:60]}`): any prefix of a larger module compares equal", f.loc))
+            elif "num_folds" in names:
                 out.append(ok("R3g", f.qualname, inst, "the compared range is bounded by the sources' fold counts (num_folds)", f.loc))
             else:
                 out.append(viol("R3g", f.qualname, inst, f"the index-free shortcut compares the cumulative index with range({unparse(bound)}), which does not derive from num_folds: selecting a prefix of a module with more folds is mistaken for 'all of it'", f.loc))
